@@ -303,7 +303,10 @@ func (c *Ctx) revisionChoice() {
 	if fi == nil || cr == nil || ur == nil {
 		return
 	}
-	fn, an := c.Analysis(fi)
+	fn := c.E.FnOf(fi)
+	fn.KeepDead = true
+	an := fn.Analyze(nil)
+	fn.KeepDead = false
 	info := fi.Pkg.TypesInfo
 	revs := fi.Decl.Type.Params.List[1].Names[0]
 	var nCreate, nUpdate int
